@@ -116,6 +116,17 @@ def recording_store(inner=None):
         def codec_registry(self):
             return self.inner.codec_registry()
 
+    # whatever other public method the Store interface of the tree under test has (now or after a change) goes straight to the
+    # wrapped store: the recorder must not shadow it with the base-class default
+    def _delegate(name):
+        def method(self, *a, **k):
+            self.ops.append((name,))
+            return getattr(self.inner, name)(*a, **k)
+        method.__name__ = name
+        return method
+    for name in dir(Store):
+        if not name.startswith("_") and name not in RecordingStore.__dict__ and callable(getattr(Store, name, None)):
+            setattr(RecordingStore, name, _delegate(name))
     return RecordingStore(inner)
 
 
